@@ -445,9 +445,10 @@ Apply(s, c) ==
       [] c.op = "pop_item"  -> DelItem(s, c.kind, c.x, c.key)
       [] c.op = "set_name"  -> SetItem(s, c.kind, c.x, "name", c.val)
       [] c.op = "del_name"  -> DelName(s, c.kind, c.x)
-      [] c.op = "set_name_none" ->     \* e.name = None: un-names a named element, else stores None
+      [] c.op = "set_name_none" ->     \* e.name = None: un-names a named element, leaves an unnamed one as it is
              IF c.kind \in FirstClass /\ Exists(s, c.kind, c.x) /\ DataOf(s, c.kind, c.x).name # NoVal
-             THEN DelName(s, c.kind, c.x) ELSE SetItem(s, c.kind, c.x, "name", "<None>")
+             THEN DelName(s, c.kind, c.x)
+             ELSE IF c.kind \in FirstClass /\ Exists(s, c.kind, c.x) THEN Ok(s) ELSE Refuse(s)
       [] c.op = "set_attr"  -> SetAttr(s, c.kind, c.x, c.key, c.val)
       [] c.op = "set_lower" -> SetAttr(s, c.kind, c.x, "lower", c.ival)
       [] c.op = "set_dir"   -> SetAttr(s, "P", c.x, "dir", c.ival)
